@@ -42,6 +42,81 @@ func runC18(c *Ctx) {
 			}
 		})
 	}
+	// the splitter is built only from operations that lose nothing of the text but the separator: which standard
+	// library functions length.Lines (and what it calls in the module) may use is a closed list; the well-known
+	// line-oriented conveniences that DO alter the text are violations, anything else is left undecided (NOTE)
+	{
+		lossless := map[string]bool{"strings.Split": true, "strings.SplitN": true, "strings.Index": true, "strings.IndexByte": true, "strings.IndexRune": true,
+			"strings.LastIndex": true, "strings.LastIndexByte": true, "strings.Count": true, "strings.HasSuffix": true, "strings.HasPrefix": true, "strings.TrimSuffix": true, "strings.Cut": true}
+		altering := map[string]string{
+			"bufio":                 "a bufio.Scanner drops a carriage return before each line break and gives up on long lines",
+			"strings.Fields":        "Fields drops empty lines and surrounding white space",
+			"strings.FieldsFunc":    "FieldsFunc drops empty lines",
+			"strings.TrimSpace":     "TrimSpace removes more than one trailing newline",
+			"strings.Trim":          "Trim removes more than one trailing newline",
+			"strings.TrimRight":     "TrimRight removes every trailing newline, not one",
+			"strings.TrimLeft":      "TrimLeft removes leading text",
+			"strings.TrimFunc":      "TrimFunc removes text",
+			"strings.Replace":       "the text is rewritten before it is split",
+			"strings.ReplaceAll":    "the text is rewritten before it is split",
+			"strings.NewReplacer":   "the text is rewritten before it is split",
+			"strings.Map":           "the text is rewritten before it is split",
+			"strings.ToLower":       "the text is rewritten",
+			"strings.ToUpper":       "the text is rewritten",
+			"strings.ToValidUTF8":   "the text is rewritten",
+			"strings.SplitAfter":    "the lines keep their line break",
+			"strings.SplitAfterN":   "the lines keep their line break",
+			"strings.EqualFold":     "",
+			"unicode/utf8":          "",
+			"bytes.Fields":          "Fields drops empty lines and surrounding white space",
+			"bytes.TrimSpace":       "TrimSpace removes more than one trailing newline",
+			"regexp":                "a regular-expression split is not decided here and commonly eats carriage returns or blank lines",
+			"text/scanner":          "a token scanner is not a line splitter",
+			"strings.NewReader":     "",
+			"strings.Lines":         "",
+			"strings.SplitSeq":      "",
+			"strings.FieldsSeq":     "FieldsSeq drops empty lines",
+			"strings.FieldsFuncSeq": "FieldsFuncSeq drops empty lines",
+		}
+		nuse := 0
+		for _, fn := range pkgReach(lines, 2) {
+			eachInstr(fn, func(in ssa.Instruction) {
+				callee := staticCallee(in)
+				if callee == nil || inModule(callee) || callee.Pkg == nil {
+					return
+				}
+				pp := funcPkgPath(callee)
+				name := pp + "." + callee.Name()
+				if callee.Signature.Recv() != nil {
+					name = pp // methods of a library type: judged by the package
+				}
+				nuse++
+				switch {
+				case lossless[name]:
+					if callee.Name() == "SplitN" {
+						k, isK := constInt(callCommon(in).Args[2])
+						r.Check("R18.2", FuncName(fn), "the splitter places no limit on the number of lines", in.Pos(), isK && k < 0, "SplitN with a limit leaves the remaining line breaks inside the last line")
+					} else if callee.Name() == "TrimSuffix" {
+						sfx, isS := constString(callCommon(in).Args[1])
+						r.Check("R18.2", FuncName(fn), "at most one trailing newline is removed", in.Pos(), isS && sfx == "\n", "something other than one final newline is trimmed")
+					} else {
+						r.Check("R18.2", FuncName(fn), "the splitter uses "+name+", which loses nothing but the separator", in.Pos(), true, "")
+					}
+				default:
+					why, bad := altering[name]
+					if !bad {
+						why, bad = altering[pp]
+					}
+					if bad && why != "" {
+						r.Check("R18.2", FuncName(fn), "the splitter loses nothing but line breaks", in.Pos(), false, "uses "+name+": "+why)
+					} else {
+						r.Note("shape-unrecognised R18.2: %s calls %s, which the lossless-splitter rule does not know; whether the split loses text is not decided", FuncName(fn), name)
+					}
+				}
+			})
+		}
+		r.Floor("R18.2", "library calls of the line splitter that were judged", nuse, 1)
+	}
 	cell := c.Named("", "Cell")
 	if cl := c.Method(cell, false, "Lines"); cl != nil {
 		ok := false
@@ -558,9 +633,8 @@ func c18WidthStores(c *Ctx, rule string) {
 	n := 0
 	unit := updateUnitOf(c, update)
 	for _, fs := range c.StoresTo(width) {
-		if !unit[fs.Fn] {
-			continue
-		}
+		// a second place that fills in a cell's metrics (a fast-path constructor, say) is held to the same rule
+		outside := !unit[fs.Fn]
 		for _, v := range phiClosure(fs.St.Val) {
 			n++
 			ok, why := false, "stored value: "+v.String()
@@ -571,7 +645,16 @@ func c18WidthStores(c *Ctx, rule string) {
 			case *ssa.Call:
 				if x.Call.StaticCallee() == llc {
 					f, b := loadedField(x.Call.Args[0])
-					ok = f == str && b == ssa.Value(fs.Fn.Params[0])
+					ok = f == str && len(fs.Fn.Params) > 0 && b == ssa.Value(fs.Fn.Params[0])
+					if outside {
+						// ... of the text this same function stores into the same cell
+						ok = f == str && b == fs.Base
+						for _, fs2 := range c.StoresTo(str) {
+							if fs2.Fn == fs.Fn && fs2.Base == fs.Base && fs2.St.Val == x.Call.Args[0] {
+								ok = true
+							}
+						}
+					}
 					why = "LongestLineCells of something other than the cell's text"
 				} else if x.Call.IsInvoke() && x.Call.Method.Name() == "TerminalCellWidth" {
 					ok = true
@@ -645,6 +728,7 @@ func sameMeasure(call *ssa.Call, m *ssa.Function) bool {
 // repeated tests of one condition value decided consistently.
 func c18MetricsAssigned(c *Ctx, update *ssa.Function, width, height *types.Var) {
 	r := c.R
+	strF := c.FieldOpt(c.Named("", "Cell"), "str")
 	unit := updateUnitOf(c, update)
 	if unitHasLoop(unit) {
 		r.Note("shape-unrecognised R18.2: Update contains a loop; assignment of the metrics on every path is not evaluated")
@@ -664,19 +748,64 @@ func c18MetricsAssigned(c *Ctx, update *ssa.Function, width, height *types.Var) 
 		b := []byte(st)
 		if f == width {
 			b[0] = 'y'
+			b[2] = 'v'
+			if k, isK := constInt(x.Val); isK && k == 0 {
+				b[2] = 'z'
+			}
 		}
 		if f == height {
 			b[1] = 'y'
 		}
+		if strF != nil && f == strF {
+			b[3] = 'n'
+			if s0, isS := constString(x.Val); isS && s0 == "" {
+				b[3] = 'e'
+			}
+		}
 		return string(b)
 	}
+	// what a path knows about the text being empty: tests of the text itself count, tests of something derived from
+	// it (trimmed, lower-cased) do not
+	w.onIf = func(fn *ssa.Function, cond ssa.Value, st string) (string, string) {
+		if strF == nil || len(fn.Params) == 0 {
+			return st, st
+		}
+		isText := func(v ssa.Value) bool {
+			f, base := loadedField(v)
+			return f == strF && base == ssa.Value(fn.Params[0])
+		}
+		mark := func(e bool) string {
+			b := []byte(st)
+			if e {
+				b[3] = 'e'
+			} else {
+				b[3] = 'n'
+			}
+			return string(b)
+		}
+		switch {
+		case emptinessTest(cond, true, isText):
+			return mark(true), mark(false)
+		case emptinessTest(cond, false, isText):
+			return mark(false), mark(true)
+		}
+		return st, st
+	}
 	w.onReturn = func(ret *ssa.Return, st string) { outs = append(outs, out{ret, st}) }
-	w.run(update, "nn")
+	w.run(update, "nnnn")
 	bad := map[*ssa.Return]string{}
+	zeroBad := map[*ssa.Return]bool{}
 	for _, o := range outs {
-		if o.st != "yy" {
+		if o.st[:2] != "yy" {
 			bad[o.ret] = fmt.Sprintf("a path returns without assigning width: %v, height: %v", o.st[0] != 'y', o.st[1] != 'y')
 		}
+		if o.st[2] == 'z' && o.st[3] != 'e' {
+			zeroBad[o.ret] = true
+		}
+	}
+	for i, ret := range returnsOf(update) {
+		r.Check("R18.2", FuncName(update), fmt.Sprintf("return #%d: a width of 0 is recorded only for a text known to be empty", i+1), ret.Pos(), !zeroBad[ret],
+			"a path leaves the cell 0 wide without having found its text empty (a test of something derived from the text - trimmed, say - is not that): text that is printed takes no room in the layout")
 	}
 	for i, ret := range returnsOf(update) {
 		why, isBad := bad[ret]
